@@ -16,7 +16,7 @@ def gen(tier, rng):
     # request side
     i = 0
     for url in R.REVOKE_ENDPOINTS:
-        for tk, hint in (("A", None), ("R", None), ("AF", None), ("AFR", None), ("RF", None), ("RFR", None), ("C", None), ("C", "custom hint"), ("C", "access_token"), ("C", "")):
+        for tk, hint in (("A", None), ("R", None), ("AF", None), ("AFR", None), ("RF", None), ("RFR", None), ("AS", None), ("RS", None), ("C", None), ("C", "custom hint"), ("C", "access_token"), ("C", "")):
             for auth in "BR":
                 for secret in (None, "bbb"):
                     i += 1
@@ -129,7 +129,7 @@ def run(tier, rng, C):
     from gen import srclit as SL
     pairs = []
     err = [("error", "unsupported_token_type"), ("error_description", "d")]
-    for size in [1048577, 3 * 1048576 + 1] + SL.sizes(limit=16 * 1048576, lo=300001):
+    for size in [65537, 70001, 1048577, 3 * 1048576 + 1] + SL.sizes(limit=16 * 1048576, lo=300001):
         for ct in (None, b"text/html"):
             pairs.append((c05.http_line("sync", "revoke", False, 200, ct, b"<"), c05.http_line("sync", "revoke", False, 200, ct, b"<" * size)))
             pairs.append((c05.http_line("async", "revoke", False, 200, ct, b"{}"), c05.http_line("async", "revoke", False, 200, ct, D.render(D.obj([("padding", "x" * size)]), rng, plain=True))))
